@@ -1,3 +1,83 @@
-From WalModel Require Import Eval.
-Theorem tmp : True. Proof. exact I. Qed.
-Print Assumptions tmp.
+(** C20 — WAWK transpiles with AWK meaning.
+    Statements only; proofs in proofs/WawkProofs.v (using ScanProofs for the main loop).
+    PARTIAL.  The model starts from the statements produced by the Earley parser of wawk/parser.py
+    (conditions, action as WAL forms); the parser itself — operator precedence and associativity,
+    statement syntax — is not modelled in Coq and is decided by the differential check against an
+    independent AWK-style reference evaluation.  Proved here: the classification into BEGIN / END /
+    conditional statements is a partition keeping source order; the emitted program is
+    (do define... BEGIN-actions...), the main loop (only if there are conditional statements), the
+    END actions; each collected variable is defined exactly once; the main loop is
+    (whenever #t (when (&& c1..cn) action)...) with statements in source order and, on one trace,
+    visits every index from the current one to the last exactly once in ascending order, evaluating
+    the statements' forms in source order at each index, and restores the index.  `when` is
+    (if c (do ...)) by C15 when_eq.  The -o leg is the printer/reader round trip of C11. *)
+From WalModel Require Import Wawk.
+From WalModel.proofs Require Import ScanProofs WawkProofs.
+Local Open Scope Z_scope.
+
+Theorem statement_classes_partition : forall s,
+  (is_begin s = true /\ is_end s = false /\ is_cond s = false) \/
+  (is_begin s = false /\ is_end s = true /\ is_cond s = false) \/
+  (is_begin s = false /\ is_end s = false /\ is_cond s = true).
+Proof. exact classes_partition. Qed.
+Print Assumptions statement_classes_partition.
+
+Theorem every_statement_in_one_class : forall p,
+  (List.length (begin_actions p) + List.length (end_actions p) + List.length (cond_statements p))%nat = List.length p.
+Proof. exact classes_count. Qed.
+Print Assumptions every_statement_in_one_class.
+
+Theorem classes_in_source_order : forall p q,
+  begin_actions (p +++ q) = begin_actions p +++ begin_actions q /\
+  end_actions (p +++ q) = end_actions p +++ end_actions q /\
+  cond_statements (p +++ q) = cond_statements p +++ cond_statements q.
+Proof. exact classes_keep_order. Qed.
+Print Assumptions classes_in_source_order.
+
+Theorem class_membership : forall p s,
+  (In s p /\ is_begin s = true -> In (snd s) (begin_actions p)) /\
+  (In s p /\ is_end s = true -> In (snd s) (end_actions p)) /\
+  (In s (cond_statements p) <-> In s p /\ is_cond s = true).
+Proof. exact classes_members. Qed.
+Print Assumptions class_membership.
+
+(** BEGIN once before, END once after, variables defined once each *)
+Theorem emitted_program_shape : forall p forms,
+  wawk_emit p = Some forms ->
+  exists vars, NoDup (map fst vars) /\
+    forms = PL (VOp ODo :: map (fun kv => PL [VOp ODefine; VSym (fst kv) None; snd kv]) vars +++ begin_actions p)
+            :: (match cond_statements p with [] => [] | _ => [emit_main_loop (cond_statements p)] end)
+            +++ end_actions p.
+Proof. exact emit_defines_distinct. Qed.
+Print Assumptions emitted_program_shape.
+
+Theorem main_loop_form : forall stmts,
+  emit_main_loop stmts =
+  PL (VOp OWhenever :: VBool true :: map (fun s => PL [VSym "when" None; PL (VOp OAnd :: fst s); snd s]) stmts).
+Proof. exact main_loop_shape. Qed.
+Print Assumptions main_loop_form.
+
+Theorem collected_variables_distinct : forall f e v v',
+  find_vars f e v = Some v' -> NoDup (map fst v) -> NoDup (map fst v').
+Proof. exact find_vars_nodup. Qed.
+Print Assumptions collected_variables_distinct.
+
+Section MainLoop.
+  Variable ev : val -> M val.
+  Variable tid : string.
+  Hypothesis Htrue : forall st, ev (VBool true) st = Ok (VBool true) st.
+  Variable whens : list val.
+  Hypothesis Hb : forall st i m vs st', at1 st tid i m -> eval_args ev whens st = Ok vs st' -> at1 st' tid i m.
+
+  Theorem main_loop_is_for_loop : forall fuel st i m,
+    at1 st tid i m -> 0 <= i <= m -> (Z.to_nat (m - i) < fuel)%nat -> whens <> [] ->
+    op_whenever fuel ev (VBool true :: whens) st =
+    (r <- wh_spec ev tid (VBool true) whens (zrange_nat i (S (Z.to_nat (m - i)))) VNone ;; set_trace_index tid i ;;; ret r) st.
+  Proof. exact (main_loop_visits_every_index ev tid Htrue whens Hb). Qed.
+
+  Theorem each_visit_runs_statements_in_order : forall last st,
+    visit ev (VBool true) whens last st = (vs <- eval_args ev whens ;; last_or_index_error vs) st.
+  Proof. exact (visit_runs_all_statements ev Htrue whens). Qed.
+End MainLoop.
+Print Assumptions main_loop_is_for_loop.
+Print Assumptions each_visit_runs_statements_in_order.
